@@ -273,4 +273,11 @@ def run(repo, tier) -> Result:
     res.rule("R-AFFINE", floor=6)
     res.rule("R-SIGN", floor=8)
     res.rule("R-FINITE", floor=10)
+    from ..framework_rules import check_helper_config
+
+    check_helper_config("C10", res, repo)
+    # the invariants are proved under the candle axiom low <= open, close <= high: the input converters must preserve it
+    from .c19 import check_converters
+
+    check_converters("C10", res, repo, rule="R-INPUT")
     return res
